@@ -227,4 +227,111 @@ theorem orphans_widows (c : Ctx) (st : PStyle) (b : BoxSt) (n : Nat) (lineH : Ra
     exact lineLoop_break_orphans_widows c st b n lineH bs (skipLine skip) _ _ _ _ s stp res
       (Nat.le_refl _) (by simp) (by omega) hw hloop
 
+/-! ### forced breaks and page sides in the pagination model -/
+
+open Wp.PM in
+/-- (a) Between two in-flow siblings, as soon as the resolved value forces a break (or the page name
+changes to a named page), the children loop stops *before* the second sibling: it is not laid out on
+this page, the resume position is exactly that sibling, and the pending `next_page` carries the
+resolved break value and the sibling's page name. For every parent, every state of the loop. -/
+theorem forced_break_stops (c : Ctx) (st : PStyle) (child : PBox) (rest : List PBox) (index skipIdx : Nat)
+    (bs : Rat) (pie : Bool) (s : KidsLoop) (hidx : ¬ index < skipIdx) (hf : (meetBreak s child).2 = true) :
+    layoutKids c st (child :: rest) index skipIdx bs pie s =
+      .stopped (some (.node index none))
+        { s with nextPage := { brk := some (meetBreak s child).1, page := some (boxPageStart child) } } := by
+  unfold layoutKids
+  simp [hidx, hf]
+
+open Wp.PM in
+/-- …and the test that triggers it is exactly "the values meeting between the last laid-out sibling
+and the next one resolve to a forcing value, or the page name changes to a non-empty name". -/
+theorem meetBreak_forced_iff (s : KidsLoop) (child : PBox) (l : Frag) (hl : s.newChildren.getLast? = some l) :
+    (meetBreak s child).2 = true ↔
+      (forces false (breakBetween l child) = true ∨
+        (fragPageEnd l ≠ boxPageStart child ∧ boxPageStart child ≠ "")) := by
+  unfold meetBreak
+  simp only [hl, forcesPage]
+  constructor
+  · intro h
+    simp only [Bool.or_eq_true, Bool.and_eq_true, decide_eq_true_eq] at h
+    rcases h with h | h
+    · right; exact h
+    · left; exact h
+  · intro h
+    simp only [Bool.or_eq_true, Bool.and_eq_true, decide_eq_true_eq]
+    rcases h with h | h
+    · right; exact h
+    · left; exact h
+
+open Wp.PM in
+/-- The first sibling laid out on a page is never preceded by a forced break (nothing to break from). -/
+theorem meetBreak_first (s : KidsLoop) (child : PBox) (h : s.newChildren = []) :
+    meetBreak s child = (.auto, false) := by
+  unfold meetBreak; simp [h]
+
+/-- Arithmetic of blank pages: with a requested side, the current page either already has it, or it
+is blank and the next page (sides alternate) has it. -/
+theorem blank_then_side (side right : Bool) :
+    (PM.isBlank (some side) right = false ∧ right = side) ∨
+    (PM.isBlank (some side) right = true ∧ right = !side ∧ PM.isBlank (some side) (!right) = false) := by
+  cases side <;> cases right <;> decide
+
+theorem no_side_no_blank (right : Bool) : PM.isBlank none right = false := by
+  cases right <;> decide
+
+open Wp.PM in
+/-- What `remake_page` records for the page it makes: side = the page maker's `right_page`, blank
+exactly when the requested side differs; a blank page is unnamed and leaves the resume position and
+the pending break untouched (so the requested side is re-examined for the next page). -/
+theorem remakePage_type (d : Doc) (index : Nat) (resume : Option Resume) (np : NextPage) (right : Bool)
+    (p : Page) (hp : remakePage d index resume np right = some p) :
+    p.type.right = right ∧ p.type.index = index ∧
+    p.type.blank = isBlank (requestedSide d.rootLtr np.brk) right ∧
+    (p.type.blank = true → p.type.name = "" ∧ p.resume = resume ∧ p.nextPage = np) := by
+  unfold remakePage at hp
+  dsimp only at hp
+  split at hp
+  · simp at hp
+  · simp only [Option.some.injEq] at hp
+    subst hp
+    refine ⟨rfl, rfl, rfl, ?_⟩
+    intro hb
+    simp only at hb
+    simp [hb]
+
+open Wp.PM in
+/-- (b) Page sides: when a side is requested, the page made now either has that side and is not
+blank, or is a blank page and the page after it has the requested side and is not blank. -/
+theorem side_honoured (d : Doc) (index : Nat) (resume : Option Resume) (np : NextPage) (right side : Bool)
+    (hs : requestedSide d.rootLtr np.brk = some side) (p : Page)
+    (hp : remakePage d index resume np right = some p) :
+    (p.type.blank = false ∧ p.type.right = side) ∨
+    (p.type.blank = true ∧ p.type.name = "" ∧
+      ∀ p', remakePage d (index + 1) p.resume p.nextPage (!right) = some p' →
+        p'.type.blank = false ∧ p'.type.right = side) := by
+  obtain ⟨hr, _, hb, hkeep⟩ := remakePage_type d index resume np right p hp
+  rw [hs] at hb
+  rcases blank_then_side side right with ⟨h1, h2⟩ | ⟨h1, h2, h3⟩
+  · left; rw [hb, hr]; exact ⟨h1, h2⟩
+  · right
+    rw [h1] at hb
+    obtain ⟨hn, hres, hnp⟩ := hkeep hb
+    refine ⟨hb, hn, ?_⟩
+    intro p' hp'
+    rw [hres, hnp] at hp'
+    obtain ⟨hr', _, hb', _⟩ := remakePage_type d (index + 1) resume np (!right) p' hp'
+    rw [hs, h3] at hb'
+    refine ⟨hb', ?_⟩
+    rw [hr', h2]; simp
+
+open Wp.PM in
+/-- Without a requested side no blank page is inserted and the page has the page maker's side
+(which alternates: `right_page = not right_page`). -/
+theorem no_blank_without_side (d : Doc) (index : Nat) (resume : Option Resume) (np : NextPage) (right : Bool)
+    (hs : requestedSide d.rootLtr np.brk = none) (p : Page)
+    (hp : remakePage d index resume np right = some p) : p.type.blank = false ∧ p.type.right = right := by
+  obtain ⟨hr, _, hb, _⟩ := remakePage_type d index resume np right p hp
+  rw [hs, no_side_no_blank] at hb
+  exact ⟨hb, hr⟩
+
 end Wp.C04
